@@ -93,7 +93,17 @@ def run(ctx, report):
                          where(arch, from_att.node))
             continue
         n2 = back[1] if isinstance(back, tuple) and len(back) == 2 else back
-        if n2 == name:
+        afs = X.afs
+        size_bad = None
+        for a_new, a_old in zip(args2, inst.operands):
+            if a_old.get(afs.ad) and a_old.get(afs.size) is not True and a_new.get(afs.size) != a_old.get(afs.size):
+                size_bad = (a_old.get(afs.size), a_new.get(afs.size))
+        # the size letters of movs??/movz?? are the only source of the memory operand's size (elsewhere the assembler
+        # re-derives it from the register operand, so a difference there is not observable)
+        if n2 == name and size_bad and name in ('movsx', 'movzx'):
+            R2.violation(iid, 'att-back-size:%s:%s' % (name, res), 'the AT&T mnemonic %r of %s (%s) gives its memory operand size %s when read back (was %s)'
+                         % (res, name, sig, size_bad[1], size_bad[0]), where(arch, from_att.node))
+        elif n2 == name:
             R2.ok(iid, sample='%s -> %s -> %s' % (name, res, n2))
         else:
             R2.violation(iid, 'att-back:%s:%s->%s' % (name, res, n2), 'the AT&T mnemonic %r of %s (%s) is read back as %r' % (res, name, sig, n2), where(arch, from_att.node))
@@ -116,6 +126,6 @@ MUTANTS = [
     ('ptr-w-u32', 'miasmx/arch/ia32_arch.py', "            'w': x86_afs.u16,\n            'l': x86_afs.u32, },\n        'lea',", "            'w': x86_afs.u32,\n            'l': x86_afs.u32, },\n        'lea',", 'C09.D'),
     ('corr-swap', 'miasmx/arch/ia32_arch.py', "        'cwtl': 'cwde',\n        'cwtd': 'cwd',", "        'cwtl': 'cwd',\n        'cwtd': 'cwde',", 'C09.D2'),
     ('none-minus-ret', 'miasmx/arch/ia32_arch.py', "        'leave', 'ret', 'nop',", "        'leave', 'nop',", 'C09.D1'),
-    ('from-att-set-order', 'miasmx/arch/ia32_arch.py', "    elif name.startswith('set'):\n        if name.endswith('b') and not name in [ 'setb', 'setnb' ]:", "    elif name.startswith('set'):\n        if name.endswith('b') and not name in [ 'setb' ]:", 'C09.D2'),
+    ('from-att-set-order', 'miasmx/arch/ia32_arch.py', "    elif name.startswith('set'):\n        if name.endswith('b') and not name in [ 'setb', 'setnb' ]:", "    elif name.startswith('set'):\n        if name.endswith('b') and not name in [ 'setnb' ]:", 'C09.D2'),
     ('movzx-bw', 'miasmx/arch/ia32_arch.py', "        elif sz == (u16, u08):\n            return name[:4]+'bw'", "        elif sz == (u16, u08):\n            return name[:4]+'wb'", 'C09.D2'),
 ]
